@@ -32,6 +32,15 @@ class _Finder(importlib.abc.MetaPathFinder):
 
 
 def install():
+    # VF_REPO: run the checks against another checkout (scratch worktree with a
+    # seeded change); default is /repo through the editable install.
+    alt = os.environ.get("VF_REPO")
+    if alt:
+        lib = os.path.join(alt, "lib")
+        if not os.path.isdir(os.path.join(lib, "sqlalchemy")):
+            raise RuntimeError("VF_REPO=%s has no lib/sqlalchemy" % alt)
+        if lib not in sys.path:
+            sys.path.insert(0, lib)
     if os.environ.get("VF_COMPILED") == "1":
         return False
     if "sqlalchemy" in sys.modules:
